@@ -6,6 +6,8 @@ import shutil
 import sys
 
 wt, prop = sys.argv[1], sys.argv[2]
+prefix = sys.argv[3] if len(sys.argv) > 3 else "T"
+rnd = {"T": 2, "U": 3, "V": 4}.get(prefix, 2)
 notes = {}
 try:
     notes = json.load(open(os.path.join(wt, "notes.json")))
@@ -16,7 +18,7 @@ for ab in "AB":
     if not (os.path.exists(pf) and os.path.exists(df)):
         print("missing", ab)
         continue
-    sid = "T%s%s" % (prop[1:], ab)
+    sid = "%s%s%s" % (prefix, prop[1:], ab)
     d = os.path.join("/verif/seeded", sid)
     os.makedirs(d, exist_ok=True)
     shutil.copy(pf, os.path.join(d, "patch.diff"))
@@ -24,6 +26,6 @@ for ab in "AB":
     n = notes.get(ab, {})
     if not os.path.exists(os.path.join(d, "meta.json")):
         json.dump({"property": prop, "summary": n.get("summary", ""), "needs": n.get("needs", ""),
-                   "source": "independent sub-agent (round 2) given only the property text and a scratch worktree", "runs": []},
+                   "source": "independent sub-agent (round %d) given only the property text and a scratch worktree" % rnd, "runs": []},
                   open(os.path.join(d, "meta.json"), "w"), indent=1)
     print("harvested", sid)
